@@ -47,6 +47,11 @@ pub fn run<A: Cx>(d: &mut Drv<A>, scale: usize) {
                     d.emit(json!({"op": "obs", "src": src, "gets": [], "nths": []}));
                 } else {
                     let p = probes(m);
+                    if d.rng.chance(1, 3) {
+                        // the owned sequence reached through AsRef / Borrow instead of Deref
+                        let acc = *d.rng.pick(&["asref", "borrow", "refborrow", "sliceasref"]);
+                        src["acc"] = json!(acc);
+                    }
                     d.emit(json!({"op": "obs", "src": src, "gets": p, "nths": p}));
                 }
             }
